@@ -243,6 +243,114 @@ theorem judge_flagged_rejected (law : ReadsNumerals rd) (lawT : ReadsTrimmed rd)
     · simp only [List.mem_cons, List.not_mem_nil, or_false] at h
       rw [h]; exact hall bad hbmem
 
+/-! ### the `glyph` start tag -/
+
+theorem gfold_name : ∀ (as : List Attr) (acc acc' : GlyphAcc), foldAttrs gStep acc as = some acc' → acc'.name.isSome = true →
+    acc.name.isSome = true ∨ "name".toList ∈ as.map (·.1)
+  | [], acc, acc', h, hn => by
+    simp only [foldAttrs, Option.some.injEq] at h
+    subst h
+    exact .inl hn
+  | a :: r, acc, acc', h, hn => by
+    simp only [foldAttrs] at h
+    cases hs : gStep acc a with
+    | none => simp [hs] at h
+    | some acc1 =>
+      simp only [hs] at h
+      rcases gfold_name r acc1 acc' h hn with h1 | h1
+      · unfold gStep at hs
+        cases hk : gKeyOf a.1 with
+        | none => simp [hk] at hs
+        | some k =>
+          simp only [hk] at hs
+          cases k with
+          | name =>
+            right
+            have := gKeyOf_eq hk
+            exact List.mem_map.2 ⟨a, List.mem_cons_self, this⟩
+          | format =>
+            left
+            simp only [gApply] at hs
+            split at hs
+            · simp only [Option.some.injEq] at hs; subst hs; exact h1
+            · cases hs
+          | formatMinor =>
+            left
+            simp only [gApply] at hs
+            split at hs
+            · simp only [Option.some.injEq] at hs; subst hs; exact h1
+            · cases hs
+      · exact .inr (by simp only [List.map_cons, List.mem_cons]; exact .inr h1)
+
+/-- **the converse for the `glyph` start tag**: every rule `glyphAttrCheck` reports — the attributes are not well-formed
+    (`attr-syntax`), `name` is missing or not a valid name (`glyph-name`), an attribute other than `name`, `format`,
+    `formatMinor` (`unknown-attr`) — makes the parser reject the document at the start tag.
+    OPEN: the rule `version`.  It is not a theorem as it stands: `formatMinor="00"` (or `"+0"`) is `version` for `judge`
+    (the minor version must be spelled `0`) and read as 0 by the parser (`parse::<u32>`); such spellings are not generated. -/
+theorem glyphAttrCheck_fails {d : Doc} (hne : glyphAttrCheck d ≠ []) : ∃ k, parseGlyphAttrs d.gattrs = .error k := by
+    cases hga : d.gattrs with
+    | none => exact ⟨_, rfl⟩
+    | some as =>
+      simp only [parseGlyphAttrs]
+      cases hf : foldAttrs gStep {} as with
+      | none => exact ⟨_, rfl⟩
+      | some acc =>
+        simp only []
+        unfold glyphAttrCheck at hne
+        simp only [hga] at hne
+        have hall : as.all (fun a => a.1 = "name".toList ∨ a.1 = "format".toList ∨ a.1 = "formatMinor".toList) = true := by
+          apply List.all_eq_true.2
+          intro a ha
+          apply Classical.byContradiction
+          intro hnk
+          simp only [decide_eq_true_eq, not_or] at hnk
+          have hk : gKeyOf a.1 = none := by
+            unfold gKeyOf
+            rw [if_neg hnk.1, if_neg hnk.2.1, if_neg hnk.2.2]
+          have := foldAttrs_none_of_mem gStep a (fun acc => by unfold gStep; rw [hk]) as {} ha
+          rw [this] at hf
+          cases hf
+        simp only [hall, if_true, List.append_nil] at hne
+        cases hg : Spec.get as "name" with
+        | none =>
+          have hnm := not_mem_of_get_none hg
+          have hname : acc.name = none := by
+            cases hn : acc.name with
+            | none => rfl
+            | some n =>
+              rcases gfold_name as {} acc hf (by simp [hn]) with h | h
+              · simp at h
+              · exact absurd h hnm
+          exact ⟨.wrongFirstElement, by simp [gFinish, hname]⟩
+        | some n =>
+          simp only [hg] at hne
+          by_cases hok : nameOk n = true
+          · simp [hok] at hne
+          · exfalso
+            have hv : validName n = false := by rw [← nameOk_eq_validName]; simpa using hok
+            have := foldAttrs_none_of_mem gStep ("name".toList, n) (fun acc => by
+              unfold gStep gKeyOf
+              rw [if_pos rfl]
+              simp only [gApply, hv, Bool.false_eq_true, if_false]) as {} (get_mem hg)
+            rw [this] at hf
+            cases hf
+
+theorem glyph_start_rule_rejected {d : Doc} (hs : Shaped d) (hne : glyphAttrCheck d ≠ []) :
+    accepted (parseGlif rd (Spec.flatten d)) = false := by
+  obtain ⟨k, hk⟩ := glyphAttrCheck_fails hne
+  unfold parseGlif Spec.flatten
+  simp only [hs.glyphOpen, Bool.false_eq_true, if_false, List.append_assoc, List.cons_append]
+  rw [scanStart_prolog _ _ hs.prolog]
+  simp only [scanStart, if_true, hk, accepted]
+
+/-- a glyph without a name -/
+example : accepted (parseGlif R1 (Spec.flatten { prolog := [.decl], gattrs := some [("format".toList, ['2'])], items := [adv1] })) = false :=
+  glyph_start_rule_rejected ⟨by decide, by intro as h; cases h; decide, rfl, by
+    intro it hit
+    simp only [List.mem_cons, List.not_mem_nil, or_false] at hit
+    subst hit
+    exact ⟨by intro as h; cases h; decide, by decide⟩⟩ (by decide)
+
 /-! ### non-vacuity
 
 The two laws hold together for `readsPlain` (the reader of exactly the plain numerals, `Lemmas/JudgeFirst.lean`); the
